@@ -47,6 +47,12 @@ def run(tier):
         if c == 0:
             k = sorted(runs)[3]
             rep.sample({x: runs[k][0][x] for x in ("argv", "cfg", "nsegs", "nbytes", "malformed", "shards")})
+    # size- and depth-dependent paths: frames far larger than the read buffer, more commands in one read than any budget
+    tr = os.path.join(wd, "scale.ndjson")
+    vlib.vh(["conn", "scale", "--tier", tier, "--out", tr])
+    runs, bad = vlib.validate_runs(rep, "ConnTrace", "ConnTrace", tr, wd, "scale", describe=describe, strip=("s", "cmds", "replies"))
+    nt += len(runs)
+    os.remove(tr)
     rep.cov["distinct_nontrivial"] = nt
     rep.cov["rule"] = ("a case is one byte stream of 1-9 commands through the real connection handler with a segmentation and a "
                        "batching configuration; non-trivial = delivered in more than one read")
